@@ -388,12 +388,13 @@ def job_taper(cfg):
     dim = g0.dim
     a = c.var("taper", 0, Fraction(1, 2), shadow=Fraction(3, 10))
     res.symbols = 1
+    ti = 2 if cfg.get("along") == "z" else 1  # x -> x (1 + a y) or, in 3-D, x (1 + a z): the second one makes extruded wedges / bricks non-affine across their layers
     X0 = np.asarray(mesh.coord, dtype=float)
     P = np.zeros(X0.shape, dtype=object)
     for n in range(X0.shape[0]):
         x, y, z = (Fraction(float(v)) for v in X0[n])
-        P[n] = [x * (1 + a * y), y, z]
-    key = f"{et} tapered mesh of the unit {'square' if dim == 2 else 'cube'}"
+        P[n] = [x * (1 + a * (y, z)[ti - 1]), y, z]
+    key = f"{et} tapered mesh of the unit {'square' if dim == 2 else 'cube'}" + (" (taper along the extrusion direction)" if ti == 2 else "")
     res.functions |= {"_GroupElem.center", "_GroupElem.area", "_GroupElem.volume", "_GroupElem.Get_weightedJacobian_e_pg", "_GroupElem.Get_GaussCoordinates_e_pg", "_GroupElem.Integrate_e"}
     mark = c.mark()
     with facade.symbolic():
@@ -404,15 +405,19 @@ def job_taper(cfg):
     res.paths, res.path_conditions = 1, len(pcs)
     want_m = 1 + a / 2
     want_c = [(1 + a + a * a / 3) / (2 + a), (Fraction(1, 2) + a / 3) / (1 + a / 2), Fraction(1, 2) if dim == 3 else 0]
+    if ti == 2:
+        want_c = [want_c[0], Fraction(1, 2), want_c[1]]
 
     def replay(env):
         af = float(as_sym(a).eval({k: float(v) for k, v in {**c.shadow, **(env or {})}.items()}))
         Pf = X0.copy()
-        Pf[:, 0] = X0[:, 0] * (1 + af * X0[:, 1])
+        Pf[:, 0] = X0[:, 0] * (1 + af * X0[:, ti])
         g2 = GroupElemFactory.Create(ElemType[et], np.asarray(g0.connect), Pf)
         m2 = float(g2.area if dim == 2 else g2.volume)
         c2 = np.asarray(g2.center, dtype=float)
         wc = np.array([(1 + af + af * af / 3) / (2 + af), (0.5 + af / 3) / (1 + af / 2), 0.5 if dim == 3 else 0.0])
+        if ti == 2:
+            wc = np.array([wc[0], 0.5, wc[1]])
         bad = abs(m2 - (1 + af / 2)) > 1e-9 or float(np.abs(c2 - wc).max()) > 1e-9
         return bad, {"taper": af, "measure": m2, "exact_measure": 1 + af / 2, "center": c2.tolist(), "exact_center": wc.tolist()}
 
@@ -485,8 +490,10 @@ def main():
     for et in elems:
         configs.append({"kind_": "measure", "elem": et, "deg": 1})
     configs.append({"kind_": "quad"})
-    for et in ["QUAD4", "QUAD9", "HEXA8"] + (["QUAD8", "HEXA20", "HEXA27", "PRISM6", "TRI6"] if tier == "thorough" else []):
+    for et in ["QUAD4", "QUAD9", "HEXA8", "PRISM6"] + (["QUAD8", "HEXA20", "HEXA27", "TRI6", "PRISM15", "PRISM18"] if tier == "thorough" else []):
         configs.append({"kind_": "taper", "elem": et})
+    for et in ["PRISM6", "HEXA8"] + (["TETRA4", "PRISM15", "HEXA20"] if tier == "thorough" else []):
+        configs.append({"kind_": "taper", "elem": et, "along": "z"})
     results = harness.run_jobs(job, configs)
     harness.finish(
         PID, results, t0=t0,
